@@ -177,7 +177,7 @@ class Gen:
         inst = r.choice(members) if not neg else r.choice(["a", "z", "é", "\n", "]", "0"])
         return txt, inst
 
-    def seq(self, depth, inext):
+    def seq(self, depth, inext, inq=False):
         r = self.rng
         txt, inst = "", ""
         for _ in range(r.randrange(0 if inext else 1, 4 if depth else 6)):
@@ -191,8 +191,10 @@ class Gen:
             elif k < 0.85:
                 t, i = self.bracket()
             elif depth < 2:
-                kind = r.choice("?*+@!")
-                alts = [self.seq(depth + 1, True) for _ in range(r.randrange(1, 4))]
+                # iterated groups nested in iterated groups make every backtracking matcher (the engine, its model, bash)
+                # and the cut-enumerating specification exponential: keep them rare and small
+                kind = r.choice("?*+@!") if (not inq or r.random() < 0.15) else r.choice("?@!")
+                alts = [self.seq(depth + 1, True, inq or kind in "*+") for _ in range(r.randrange(1, 3 if inq else 4))]
                 t = kind + "(" + "|".join(a[0] for a in alts) + (")" if r.random() < 0.95 else "")
                 pick = r.choice(alts)[1]
                 if kind == "!":
@@ -211,7 +213,11 @@ class Gen:
 
     def case(self):
         r = self.rng
-        p, inst = self.seq(0, False)
+        for _ in range(20):
+            p, inst = self.seq(0, False)
+            if len(p) <= 30:
+                break
+        inst = inst[:10]
         ss = {inst, "", inst[:-1], inst + "a", "x\n" + inst, inst + "\n", inst.swapcase()}
         chars = [c for c in p if c not in "\\"] + ["a", "\n"]
         for _ in range(6):
@@ -219,7 +225,7 @@ class Gen:
         if inst:
             k = r.randrange(len(inst))
             ss.add(inst[:k] + r.choice(chars) + inst[k + 1:])
-        return p, sorted(ss)
+        return p, sorted(x for x in ss if len(x) <= 12)
 
 
 # ------------------------------------------------------------------ verdict helpers
@@ -228,6 +234,9 @@ class Verdict:
     def __init__(self):
         self.mism, self.specv, self.known_seen, self.unknown = [], [], {}, []
         self.known_count = {}
+        self.model_fuel = self.spec_fuel = self.model_inconclusive = self.bash_quirk_skipped = 0
+        self.inconclusive_examples = []
+        self.bash_only = []
         self.evals = 0
         self.unmodelled = 0
         self.pending = []     # (opts, p, q, strings, idxs, code, spec, flags) awaiting the bash opinion
@@ -246,15 +255,53 @@ class Verdict:
             self.unmodelled += 1
         elif "E" in code and "E" not in model and flags[0] == "1":
             self.backtrack_limit = getattr(self, "backtrack_limit", 0) + 1     # fancy-regex gave up (RuntimeError) on a !() pattern
-        elif code != model:
-            k = next(i for i in range(n) if i >= len(model) or code[i] != model[i])
-            self.mism.append({"what": what, "opts": opts, "pattern": p, "quoted": q, "subject": strings[k],
-                              "code": code[k], "model": model[k] if k < len(model) else "?"})
-        if code != spec:
-            idxs = [i for i in range(n) if code[i] != spec[i]]
+        else:
+            # 'F': the engine model ran out of its step budget on that subject -> inconclusive there, never a mismatch
+            nf = model.count("F")
+            self.model_fuel += nf
+            bad = [i for i in range(n) if i >= len(model) or (model[i] != "F" and code[i] != model[i])]
+            if bad:
+                k = bad[0]
+                self.mism.append({"what": what, "opts": opts, "pattern": p, "quoted": q, "subject": strings[k],
+                                  "code": code[k], "model": model[k] if k < len(model) else "?"})
+        # 'F' in the specification bits: the cut enumeration is not affordable there -> bash decides those subjects
+        sf = [i for i in range(n) if spec[i] == "F"]
+        self.spec_fuel += len(sf)
+        idxs = [i for i in range(n) if spec[i] != "F" and code[i] != spec[i]]
+        if idxs:
             self.pending.append((what, opts, p, q, strings, idxs, code, spec, specml, flags))
+        if sf:
+            self.bash_only.append((what, opts, p, q, strings, sf, code, flags))
+
+    def inconclusive(self, what, why):
+        self.model_inconclusive += 1
+        if len(self.inconclusive_examples) < 8:
+            self.inconclusive_examples.append({"what": what, "why": why})
+
+    def settle_bash_only(self):
+        """subjects on which the specification was not affordable: the code is compared with bash directly"""
+        cases = [(o, p, q, [ss[i] for i in idxs]) for (_, o, p, q, ss, idxs, _, _) in self.bash_only]
+        bb = bash_bits(cases)
+        for (what, o, p, q, ss, idxs, code, flags), b in zip(self.bash_only, bb):
+            for j, i in enumerate(idxs):
+                if b is None or j >= len(b) or code[i] in "EU" or b[j] == code[i]:
+                    continue
+                rec = {"input": {"op": what, "opts": o, "pattern": p, "quoted_prefix": q, "subject": ss[i]},
+                       "why": "code says %s, bash says %s (specification not affordable on this subject)" % (code[i], b[j]),
+                       "code": code[i], "bash": b[j]}
+                kid = attribute(flags, ss[i], ml_applies=False)
+                if kid:
+                    rec["known"] = kid
+                    self.note_known(kid, rec)
+                elif "**(" in p or "*?(" in p or "*!(" in p or "*@(" in p or "*+(" in p or "[" in p:
+                    # bash quirks documented under spec_vs_bash (star before an extglob, unterminated brackets): not decidable without the spec
+                    self.bash_quirk_skipped += 1
+                elif len(self.unknown) < 500:
+                    self.unknown.append(rec)
+        self.bash_only = []
 
     def settle(self, use_bash=True):
+        self.settle_bash_only()
         cases = [(o, p, q, [ss[i] for i in idxs]) for (_, o, p, q, ss, idxs, _, _, _, _) in self.pending]
         bb = bash_bits(cases) if use_bash else [None] * len(cases)
         for (what, o, p, q, ss, idxs, code, spec, specml, flags), b in zip(self.pending, bb):
@@ -293,23 +340,54 @@ class Verdict:
 
 
 def dec1(field_line):
-    return core.dec_line(field_line)
+    r = safe_dec(field_line)
+    return r if r is not None else []
+
+
+def bound_ctx(ctx):
+    """every runner / harness shard gets a per-shard timeout of at most SHARD_TIMEOUT seconds"""
+    if getattr(ctx, "_c08_bounded", False):
+        return
+    m, i = ctx.model, ctx.impl
+    ctx.model = lambda e, c, timeout=SHARD_TIMEOUT: m(e, c, timeout=min(timeout, SHARD_TIMEOUT))
+    ctx.impl = lambda sub, c, timeout=SHARD_TIMEOUT, **kw: i(sub, c, timeout=min(timeout, SHARD_TIMEOUT), **kw)
+    ctx._c08_bounded = True
+
+
+SHARD_TIMEOUT = 300
+
+
+def safe_dec(line):
+    """decode a result line; None when the process died / timed out / printed something else"""
+    if not line or line.startswith(("PANIC", "DIED", "TIMEOUT")):
+        return None
+    try:
+        return core.dec_line(line)
+    except Exception:
+        return None
 
 
 def run_match(ctx, V, what, cases, strings_of):
     """cases: list of [opts, pattern, ...]; strings_of(case) -> list of subjects. `what` in glob_m / glob_ms"""
-    impl = ctx.impl(what, cases)
-    model = ctx.model(what, cases)
+    impl = ctx.impl(what, cases, timeout=SHARD_TIMEOUT)
+    model = ctx.model(what, cases, timeout=SHARD_TIMEOUT)
     for c, il, ml in zip(cases, impl, model):
         ss = strings_of(c)
-        if il.startswith(("PANIC", "DIED", "TIMEOUT")):
-            V.unknown.append({"input": {"op": what, "opts": c[0], "pattern": c[1]}, "why": "the code did not answer: %s" % il[:120]})
+        cf = safe_dec(il)
+        if cf is None:
+            V.unknown.append({"input": {"op": what, "opts": c[0], "pattern": c[1]}, "why": "the code did not answer: %s" % (il or "")[:120]})
             continue
-        code = dec1(il)[0] if il else ""
-        mf = dec1(ml)
-        if len(mf) < 4:
-            V.mism.append({"what": what, "pattern": c[1], "why": "model gave no answer: %r" % ml[:100]})
+        code = cf[0] if cf else ""
+        mf = safe_dec(ml)
+        if mf is None or len(mf) < 4:
+            # the MODEL gave no answer (shard died / timed out): inconclusive for this case, the code is still compared with bash
+            V.inconclusive(what, "model runner: %s on %r" % ((ml or "")[:20], c[1][:60]))
+            V.evals += len(ss)
+            V.bash_only.append((what, c[0], c[1], c[2] if what == "glob_ms" else "", ss, list(range(len(ss))), code, "00000"))
             continue
+        if what == "glob_m" and len(mf) >= 5 and mf[4] != "1":
+            V.mism.append({"what": "budgeted engine matcher vs proven matcher", "opts": c[0], "pattern": c[1],
+                           "why": "search_f (Glob/Budget.v) and search (Glob/Regex.v) disagree on a subject"})
         V.pattern(what, c[0], c[1], c[2] if what == "glob_ms" else "", ss, code, mf[0], mf[1], mf[2], mf[3])
     return impl, model
 
@@ -327,6 +405,7 @@ class Timer:
 
 
 def run(ctx):
+    bound_ctx(ctx)
     rng = ctx.rng
     V = Verdict()
     notes = {}
@@ -435,8 +514,11 @@ def run(ctx):
     for i, ((k, o, p, q, ss), so, am) in enumerate(zip(e2e, sh_out, e2e_model)):
         code = dec1(so)[0] if so and not so.startswith(("PANIC", "DIED", "TIMEOUT")) else ""
         mf = dec1(am)
-        if len(mf) < 4 or len(code) != len(ss):
-            V.mism.append({"what": "glob_sh/" + k, "opts": o, "pattern": p, "quoted": q, "why": "no answer: %r / %r" % (so[:60], am[:60])})
+        if len(mf) < 4:
+            V.inconclusive("glob_sh/" + k, "model runner: %s on %r" % ((am or "")[:20], p[:60]))
+            continue
+        if len(code) != len(ss):
+            V.mism.append({"what": "glob_sh/" + k, "opts": o, "pattern": p, "quoted": q, "why": "no answer from the code: %r" % (so[:60],)})
             continue
         if "E" in code or "E" in mf[0]:
             e2e_err += 1
@@ -503,7 +585,7 @@ def run(ctx):
                 return s_
             rm_checked += 1
             V.evals += 1
-            if "U" in model or "E" in model:
+            if "U" in model or "E" in model or "F" in model or "F" in spec:
                 continue
             exp_spec, exp_model = cut(spec), cut(model)
             if g != exp_model:
@@ -519,6 +601,52 @@ def run(ctx):
                 else:
                     V.unknown.append(rec)
     notes["longest_match_removal_cases"] = rm_checked
+    # (iv-c) option flips around the SAME pattern text within ONE shell (off, on, off, on): extglob and nocasematch.
+    #        A translation or compilation cached under a key that omits the option would show here.
+    flips = []
+    for pth in ["+(ab)", "@(a|b)", "?(a)b", "*(a)", "!(a)", "a@(b|c)", "+(a|b)c", "@(ab)", "*(ab)b"]:
+        flips.append(("extglob", pth, "", ["abab", "ab", "a", "b", "", "+(ab)", "@(a|b)", "ac", "bc", "abb", pth]))
+    for pth in ["a*", "[a-b]B", "A?", "é", "ab", "[[:upper:]]b", "?B*"]:
+        flips.append(("nocasematch", pth, "", ["ab", "AB", "aB", "Ab", "é", "É", "bB", "", "ABC", "abc"]))
+    for c in rcases[: (150 if ctx.quick else 1500)]:
+        if "(" in c[1]:
+            flips.append(("extglob", c[1], "", c[3:9]))
+        elif any(ch.isalpha() for ch in c[1]):
+            flips.append(("nocasematch", c[1], "", c[3:9]))
+    fl_out = ctx.impl("glob_flip", [[o, pth, q] + ss for (o, pth, q, ss) in flips])
+    off_opts = {"extglob": "n", "nocasematch": "e"}
+    on_opts = {"extglob": "e", "nocasematch": "ei"}
+    fl_off = ctx.model("glob_ms", [[off_opts[o], pth, q] + ss for (o, pth, q, ss) in flips])
+    fl_on = ctx.model("glob_ms", [[on_opts[o], pth, q] + ss for (o, pth, q, ss) in flips])
+    flip_checked = 0
+    for (o, pth, q, ss), so, a_off, a_on in zip(flips, fl_out, fl_off, fl_on):
+        cf, m0, m1 = safe_dec(so), dec1(a_off), dec1(a_on)
+        if cf is None or not cf:
+            V.unknown.append({"input": {"op": "flip " + o, "pattern": pth}, "why": "the code did not answer: %s" % (so or "")[:80]})
+            continue
+        if len(m0) < 4 or len(m1) < 4:
+            V.inconclusive("glob_flip", "model runner gave no answer on %r" % pth[:60])
+            continue
+        code = cf[0]
+        n = len(ss)
+        if len(code) != 4 * n or "E" in code or any(x in m0[0] + m1[0] for x in "EUF"):
+            continue          # engine errors abort the loop; covered by the matching checks
+        flip_checked += 1
+        V.evals += 4 * n
+        for seg, (mf, oo, state) in enumerate([(m0, off_opts[o], "off"), (m1, on_opts[o], "on"), (m0, off_opts[o], "off again"), (m1, on_opts[o], "on again")]):
+            part = code[seg * n:(seg + 1) * n]
+            if part != mf[0]:
+                k = next(i for i in range(n) if part[i] != mf[0][i])
+                V.mism.append({"what": "glob_flip/" + o, "pattern": pth, "subject": ss[k], "state": state, "code": part[k], "model": mf[0][k],
+                               "why": "after switching %s %s in the same shell the same pattern text is matched as before the switch" % (o, state)})
+                if "F" not in mf[1] and part[k] != mf[1][k]:
+                    rec = {"input": {"op": "case in one shell after `shopt` flips of %s (now %s)" % (o, state), "opts": oo, "pattern": pth,
+                                     "subject": ss[k], "script": "p=%r; shopt -u %s; case … in $p); shopt -s %s; case %r in $p)" % (pth, o, o, ss[k])},
+                           "why": "code says %s, specification says %s" % (part[k], mf[1][k]), "code": part[k], "spec": mf[1][k]}
+                    V.unknown.append(rec)
+                break
+            V.pattern("glob_flip/" + o, oo, pth, q, ss, part, mf[0], mf[1], mf[2], mf[3])
+    notes["option_flip_cases"] = flip_checked
     notes["e2e_cases"] = len(e2e)
     notes["e2e_cases_with_engine_errors"] = e2e_err
     T.mark("e2e")
@@ -535,7 +663,10 @@ def run(ctx):
     bb = bash_bits([(c[0], c[1], "", strings) for c in sample])
     svb = V.spec_vs_bash
     for c, ml, b in zip(sample, sample_model, bb):
-        sp = dec1(ml)[1]
+        mf_ = dec1(ml)
+        if len(mf_) < 2:
+            continue
+        sp = mf_[1]
         svb["compared"] += 1
         if sp != b:
             svb["spec_ne_bash"] += 1
@@ -560,6 +691,11 @@ def run(ctx):
     notes["phase_seconds"] = T.d
     evals += V.evals + fs["evaluations"]
     notes["patterns_outside_modelled_engine_subset"] = V.unmodelled
+    notes["inconclusive"] = {"subjects_where_the_engine_model_ran_out_of_its_step_budget": V.model_fuel,
+                             "subjects_where_the_specification_was_not_affordable_(decided_by_bash)": V.spec_fuel,
+                             "cases_without_a_model_answer_(shard_died_or_timed_out)": V.model_inconclusive,
+                             "bash_only_differences_skipped_as_documented_bash_quirks": V.bash_quirk_skipped,
+                             "examples": V.inconclusive_examples}
     notes["negation_patterns_where_the_engine_gave_up"] = getattr(V, "backtrack_limit", 0)
     notes["spec_disagreements_with_bash"] = V.bash_disagree[:10]
     return {
@@ -634,6 +770,18 @@ def run_fs(ctx, V):
         o = "e" + ("d" if rng.random() < 0.25 else "")
         cases.append([o, "/".join(comps)] + names)
 
+    # directed: an earlier component that starts with a dot must not let later components match dot-files
+    dot_trees = [[".d/", ".d/a", ".d/.b", "d/", "d/.a", "d/b", ".c/", ".c/.lock", ".c/x"],
+                 [".d/.b", ".d/a", "a", ".a", "d/.a", "d/a"],
+                 [".cache/.lock", ".cache/data", "src/.keep", "src/main"]]
+    for tree in dot_trees:
+        for pat in [".*/*", ".d*/*", ".?/*", ".[dc]/?*", ".*/?", "*/*", ".*/.*", "./*" , ".c*/*", ".d/*", "*/.*"]:
+            if pat == "./*":
+                continue
+            for o in ("e", "ed"):
+                cases.append([o, pat] + tree)
+    nflip0 = len(cases)
+
     def shopts(o):
         return ",".join(x for x, f in (("extglob", "e" in o), ("dotglob", "d" in o), ("nocaseglob", "i" in o)) if f)
     impl = ctx.impl("glob_fs", [[shopts(c[0])] + c[1:] for c in cases])
@@ -648,7 +796,7 @@ def run_fs(ctx, V):
             k = mf.index("||")
             mw, sw = mf[:k], mf[k + 1:]
         else:
-            V.mism.append({"what": "glob_fs", "pattern": c[1], "why": "model gave no answer %r" % ml[:80]})
+            V.inconclusive("glob_fs", "model runner: %s on %r" % ((ml or "")[:20], c[1]))
             continue
         if len(code) > 1 or code != [c[1]]:
             nontriv.add((c[1], tuple(sorted(c[2:]))))
@@ -687,12 +835,42 @@ def run_fs(ctx, V):
                 V.note_known(kid, r)
             else:
                 V.unknown.append(r)
-    return {"evaluations": len(cases), "distinct_nontrivial": len(nontriv),
-            "notes": {"pathname_cases_outside_modelled_domain": unm}}
+    # dotglob switched off, on, off around the same pattern text in ONE shell
+    fcases = [c for c in cases if "d" not in c[0]][: (60 if ctx.quick else 600)] + [c for c in cases[nflip0 - 60:nflip0] if "d" not in c[0]]
+    f_out = ctx.impl("glob_fs", [["extglob,flipdotglob"] + c[1:] for c in fcases])
+    f_off = ctx.model("glob_fs", [["e"] + c[1:] for c in fcases])
+    f_on = ctx.model("glob_fs", [["ed"] + c[1:] for c in fcases])
+    fchecked = 0
+    for c, so, a0, a1 in zip(fcases, f_out, f_off, f_on):
+        cf, m0, m1 = safe_dec(so), dec1(a0), dec1(a1)
+        if cf is None or "||" not in m0 or "||" not in m1:
+            continue
+        mw0, mw1 = m0[:m0.index("||")], m1[:m1.index("||")]
+        if mw0 == ["?unmodelled"] or mw1 == ["?unmodelled"]:
+            continue
+        groups, cur = [], []
+        for w in cf:
+            if w == "\x01":
+                groups.append(cur); cur = []
+            else:
+                cur.append(w)
+        groups.append(cur)
+        fchecked += 1
+        exp = [mw0, mw1, mw0]
+        if groups != exp:
+            V.mism.append({"what": "glob_fs/flipdotglob", "pattern": c[1], "names": c[2:], "code": groups, "model": exp,
+                           "why": "dotglob off/on/off around the same pattern in one shell"})
+            sw0, sw1 = m0[m0.index("||") + 1:], m1[m1.index("||") + 1:]
+            if groups != [sw0, sw1, sw0]:
+                V.unknown.append({"input": {"op": "pathname expansion with dotglob off, on, off in one shell", "pattern": c[1], "names": c[2:]},
+                                  "why": "code gives %r, specification %r" % (groups, [sw0, sw1, sw0]), "code": groups, "spec": [sw0, sw1, sw0]})
+    return {"evaluations": len(cases) + 3 * fchecked, "distinct_nontrivial": len(nontriv),
+            "notes": {"pathname_cases_outside_modelled_domain": unm, "dotglob_flip_cases": fchecked}}
 
 
 def search(ctx, res):
     """after a broken tie: code vs specification (and bash) only, more and longer inputs"""
+    bound_ctx(ctx)
     import random
     rng = random.Random(ctx.seed + 7)
     V = Verdict()
